@@ -70,170 +70,89 @@ fn mk(dt: DriverType, cap: u32) -> Proactor {
     b.build().unwrap()
 }
 
+
+fn tcp_pair() -> (OwnedFd, OwnedFd) {
+    let l = std::net::TcpListener::bind("127.0.0.1:0").unwrap();
+    let a = std::net::TcpStream::connect(l.local_addr().unwrap()).unwrap();
+    let (b, _) = l.accept().unwrap();
+    a.set_nonblocking(true).unwrap();
+    b.set_nonblocking(true).unwrap();
+    (a.into(), b.into())
+}
 fn main() {
-    for dt in [DriverType::IoUring, DriverType::Poll] {
-        println!("=== {:?}", dt);
-        // 1. recv pending, cancel via token, poll
+    let dt = DriverType::IoUring;
+    for round in 0..3 {
         let mut p = mk(dt, 8);
-        println!("driver type = {:?}", p.driver_type());
-        let (a, _b) = pair();
-        let op = Recv::new(Fd { id: 0, fd: a }, Buf { id: 0, v: Vec::with_capacity(16) }, RecvFlags::empty());
-        let PushEntry::Pending(mut key) = p.push(op) else { panic!("ready") };
-        println!("poll0 = {:?}", p.poll(Some(Duration::ZERO)).map_err(|e| e.kind()));
-        println!("poll0b = {:?}", p.poll(Some(Duration::ZERO)).map_err(|e| e.kind()));
-        let t = p.register_cancel(&key);
-        println!("cancel_token = {}", p.cancel_token(t.clone()));
-        for i in 0..3 {
-            println!("poll{} = {:?}", i, p.poll(Some(Duration::ZERO)).map_err(|e| e.kind()));
-            match p.pop(key) {
-                PushEntry::Pending(k) => {
-                    println!(" pending");
-                    key = k;
-                }
-                PushEntry::Ready(r) => {
-                    println!(" ready {:?}", r.0.map_err(|e| e.raw_os_error()));
-                    break;
-                }
-            }
-            if i == 2 {
-                return;
-            }
-        }
-        println!("cancel_token again = {}", p.cancel_token(t));
-        drop(p);
-
-        // 2. F9
-        for cap in [1u32, 2, 4] {
-            let mut p = mk(dt, cap);
-            let mut keys = vec![];
-            let mut keep = vec![];
-            for i in 0..2 {
-                let (a, b) = pair();
-                keep.push(b);
-                let op = Recv::new(Fd { id: i, fd: a }, Buf { id: i, v: Vec::with_capacity(16) }, RecvFlags::empty());
-                let PushEntry::Pending(key) = p.push(op) else { panic!("ready") };
-                keys.push(key);
-            }
-            let t = p.register_cancel(&keys[0]);
-            let issued = p.cancel_token(t);
-            let mut k0 = keys.remove(0);
-            let mut done = None;
-            for i in 0..20 {
-                let _ = p.poll(Some(Duration::ZERO));
-                match p.pop(k0) {
-                    PushEntry::Pending(k) => k0 = k,
-                    PushEntry::Ready(r) => {
-                        done = Some((i, r.0.map_err(|e| e.raw_os_error())));
-                        break;
-                    }
-                }
-                if i == 19 {
-                    std::mem::forget(k0);
-                    break;
-                }
-                std::thread::sleep(Duration::from_millis(1));
-            }
-            println!("F9 cap={} issued={} done={:?}", cap, issued, done);
-            // leak the rest through drop
-            drop(keys);
-            drop(p);
-            println!(" drops after pdrop: {:?}", DROPS.iter().map(|d| d.load(Ordering::SeqCst)).collect::<Vec<_>>());
-        }
-
-        // 3. SendZc
-        {
-            let mut p = mk(dt, 8);
-            let (a, b) = pair();
-            let op = SendZc::new(Fd { id: 2, fd: a }, Buf { id: 2, v: b"hello".to_vec() }, SendFlags::empty());
-            match p.push(op) {
-                PushEntry::Pending(mut key) => {
-                    for i in 0..5 {
-                        let r = p.poll(Some(Duration::ZERO)).map_err(|e| e.kind());
-                        let m = p.pop_multishot(&key).map(|r| r.0.map_err(|e| e.raw_os_error()));
-                        println!("zc poll{} = {:?} popm={:?}", i, r, m);
-                        match p.pop(key) {
-                            PushEntry::Pending(k) => key = k,
-                            PushEntry::Ready(r) => {
-                                println!(" zc ready {:?}", r.0.map_err(|e| e.raw_os_error()));
-                                break;
-                            }
-                        }
-                        if i == 4 {
-                            return;
-                        }
-                    }
-                }
-                PushEntry::Ready(r) => println!("zc ready at once {:?}", r.0.map_err(|e| e.raw_os_error())),
-            }
-            drop(b);
-        }
-        // 3b. SendZc + flush + drop (two CQEs in CQ)
-        if dt == DriverType::IoUring {
-            let mut p = mk(dt, 8);
-            let (a, b) = pair();
-            let op = SendZc::new(Fd { id: 3, fd: a }, Buf { id: 3, v: b"hello".to_vec() }, SendFlags::empty());
-            let PushEntry::Pending(key) = p.push(op) else { panic!() };
-            println!("flush = {}", p.flush());
-            std::thread::sleep(Duration::from_millis(5));
-            println!("dropping proactor with key held; drops[3]={}", DROPS[3].load(Ordering::SeqCst));
-            drop(p);
-            println!("after drop: drops[3]={} (key still held)", DROPS[3].load(Ordering::SeqCst));
-            if DROPS[3].load(Ordering::SeqCst) > 0 {
-                std::mem::forget(key);
-            } else {
-                drop(key);
-            }
-            println!("after key drop: drops[3]={}", DROPS[3].load(Ordering::SeqCst));
-            drop(b);
-        }
-        // 4. accept multi
-        {
-            let mut p = mk(dt, 8);
-            let l = std::net::TcpListener::bind("127.0.0.1:0").unwrap();
-            let addr = l.local_addr().unwrap();
-            l.set_nonblocking(true).unwrap();
-            let op = AcceptMulti::new(Fd { id: 4, fd: l.into() });
-            match p.push(op) {
-                PushEntry::Pending(key) => {
-                    println!("acc poll = {:?}", p.poll(Some(Duration::ZERO)).map_err(|e| e.kind()));
-                    let _c1 = std::net::TcpStream::connect(addr).unwrap();
-                    let _c2 = std::net::TcpStream::connect(addr).unwrap();
-                    std::thread::sleep(Duration::from_millis(2));
-                    println!("acc poll = {:?}", p.poll(Some(Duration::ZERO)).map_err(|e| e.kind()));
-                    for _ in 0..3 {
-                        let m = p.pop_multishot(&key).map(|r| r.0.map_err(|e| e.raw_os_error()));
-                        println!(" popm = {:?}", m);
-                    }
+        let (a, b) = tcp_pair();
+        let op = SendZc::new(Fd { id: 2, fd: a }, Buf { id: 2, v: b"hello".to_vec() }, SendFlags::empty());
+        match p.push(op) {
+            PushEntry::Pending(mut key) => {
+                for i in 0..6 {
+                    let r = p.poll(Some(Duration::ZERO)).map_err(|e| e.kind());
+                    let m = p.pop_multishot(&key).map(|r| r.0.map_err(|e| e.raw_os_error()));
+                    println!("zc poll{} = {:?} popm={:?}", i, r, m);
                     match p.pop(key) {
-                        PushEntry::Pending(k) => {
-                            println!(" acc pending");
-                            println!(" cancel = {:?}", p.cancel(k).map(|r| r.0.map_err(|e| e.raw_os_error())));
-                            println!("acc poll = {:?} fdrops[4]={}", p.poll(Some(Duration::ZERO)).map_err(|e| e.kind()), FDROPS[4].load(Ordering::SeqCst));
+                        PushEntry::Pending(k) => key = k,
+                        PushEntry::Ready(r) => {
+                            println!(" zc ready {:?}", r.0.map_err(|e| e.raw_os_error()));
+                            break;
                         }
-                        PushEntry::Ready(r) => println!(" acc ready {:?}", r.0.map_err(|e| e.raw_os_error())),
                     }
+                    if i == 2 && round > 0 {
+                        use std::io::Read;
+                        let mut s = std::net::TcpStream::from(b.try_clone().unwrap());
+                        let mut bb = [0u8; 16];
+                        println!("  peer read {:?}", s.read(&mut bb));
+                    }
+                    if i == 5 { std::mem::forget(key); break; }
                 }
-                PushEntry::Ready(r) => println!("acc ready at once {:?}", r.0.map_err(|e| e.raw_os_error())),
             }
+            PushEntry::Ready(r) => println!("zc ready at once {:?}", r.0.map_err(|e| e.raw_os_error())),
         }
-        // 5. asyncify gated
-        {
-            let mut p = mk(dt, 8);
-            let (tx, rx) = std::sync::mpsc::channel::<()>();
-            let buf = Buf { id: 5, v: vec![1, 2, 3] };
-            let op = Asyncify::new(move || {
-                rx.recv().ok();
-                compio_buf::BufResult(Ok(7), buf)
-            });
-            let PushEntry::Pending(key) = p.push(op) else { panic!() };
-            println!("blk poll = {:?}", p.poll(Some(Duration::ZERO)).map_err(|e| e.kind()));
-            println!("blk cancel = {:?}", p.cancel(key).is_some());
-            println!(" drops[5]={}", DROPS[5].load(Ordering::SeqCst));
-            tx.send(()).unwrap();
-            std::thread::sleep(Duration::from_millis(5));
-            println!(" after gate drops[5]={}", DROPS[5].load(Ordering::SeqCst));
-            println!("blk poll = {:?}", p.poll(Some(Duration::ZERO)).map_err(|e| e.kind()));
-            println!(" after poll drops[5]={}", DROPS[5].load(Ordering::SeqCst));
-        }
+        drop(b);
+    }
+    // flush + drop variant on tcp
+    {
+        let mut p = mk(dt, 8);
+        let (a, b) = tcp_pair();
+        let op = SendZc::new(Fd { id: 3, fd: a }, Buf { id: 3, v: b"hello".to_vec() }, SendFlags::empty());
+        let PushEntry::Pending(key) = p.push(op) else { panic!() };
+        println!("flush = {}", p.flush());
+        std::thread::sleep(Duration::from_millis(5));
+        drop(p);
+        println!("after drop: drops[3]={} (key still held)", DROPS[3].load(Ordering::SeqCst));
+        if DROPS[3].load(Ordering::SeqCst) > 0 { std::mem::forget(key); } else { drop(key); }
+        drop(b);
+    }
+    // accept multi: two pending connections in CQ at drop, key held
+    {
+        let mut p = mk(dt, 8);
+        let l = std::net::TcpListener::bind("127.0.0.1:0").unwrap();
+        let addr = l.local_addr().unwrap();
+        l.set_nonblocking(true).unwrap();
+        let op = AcceptMulti::new(Fd { id: 4, fd: l.into() });
+        let PushEntry::Pending(key) = p.push(op) else { panic!() };
+        println!("acc poll = {:?}", p.poll(Some(Duration::ZERO)).map_err(|e| e.kind()));
+        let _c1 = std::net::TcpStream::connect(addr).unwrap();
+        let _c2 = std::net::TcpStream::connect(addr).unwrap();
+        std::thread::sleep(Duration::from_millis(2));
+        drop(p);
+        println!("after drop: fdrops[4]={} (key still held)", FDROPS[4].load(Ordering::SeqCst));
+        if FDROPS[4].load(Ordering::SeqCst) > 0 { std::mem::forget(key); } else { drop(key); }
+    }
+    // accept multi: ONE pending connection in CQ at drop, user key dropped: freed before ring close (benign order)
+    {
+        let mut p = mk(dt, 8);
+        let l = std::net::TcpListener::bind("127.0.0.1:0").unwrap();
+        let addr = l.local_addr().unwrap();
+        l.set_nonblocking(true).unwrap();
+        let op = AcceptMulti::new(Fd { id: 5, fd: l.into() });
+        let PushEntry::Pending(key) = p.push(op) else { panic!() };
+        println!("acc poll = {:?}", p.poll(Some(Duration::ZERO)).map_err(|e| e.kind()));
+        let _c1 = std::net::TcpStream::connect(addr).unwrap();
+        std::thread::sleep(Duration::from_millis(2));
+        drop(key);
+        drop(p);
+        println!("after drop: fdrops[5]={}", FDROPS[5].load(Ordering::SeqCst));
     }
 }
